@@ -94,13 +94,15 @@ class LearnRun:
       named, defs, ks, jobs[k][di], records: list of dicts
         {di, k, pi, name, present, res (worker result), ast (D' or None), problem (or None)}"""
 
-    def __init__(self, named, ks=(2,), presentations=None, seed=0, hashseed=0, max_jobs=None, timeout=120):
+    def __init__(self, named, ks=(2,), presentations=None, seed=0, hashseed=0, max_jobs=None, timeout=120,
+                 subsets=None):
         self.named = named
         self.defs = [d for _, d in named]
         self.ks = tuple(ks)
         self.presentations = presentations or [presentation(seed, 0)]
         self.seed, self.hashseed, self.timeout = seed, hashseed, timeout
         self.max_jobs = max_jobs
+        self.subsets = subsets       # None | {"all_upto": n, "sampled": m}: also learn from proper subsets of Jobs_k(D)
         self.stats = jobdef.Stats()
         self.jobs = {}
         self.records = []
@@ -123,16 +125,40 @@ class LearnRun:
                     continue       # no loop: Jobs_k is the same set for every k
                 for pi, pres in enumerate(self.presentations):
                     cases.append({"cid": "%d.%d.%d" % (di, k, pi), "op": "learn", "di": di, "k": k, "pi": pi,
-                                  "jobs": [jobdef.job_json(j) for j in js], "present": pres,
+                                  "jobs": [jobdef.job_json(j) for j in js], "present": pres, "sub": None,
                                   "uuid_seed": self.seed * 101 + pi, "timeout": self.timeout})
+                for si, sub in enumerate(self._subsets(di, k, len(js))):
+                    pres = presentation(self.seed, 1 + si % 3) if si % 2 else self.presentations[0]
+                    cases.append({"cid": "%d.%d.s%d" % (di, k, si), "op": "learn", "di": di, "k": k, "pi": 0,
+                                  "jobs": [jobdef.job_json(js[i]) for i in sub], "present": pres, "sub": list(sub),
+                                  "uuid_seed": self.seed * 101 + si, "timeout": self.timeout})
         res = learner.run_cases(cases, hashseed=self.hashseed)
         for c in cases:
             r = res[c["cid"]]
             ast, prob = parse_output(r)
             self.records.append({"di": c["di"], "k": c["k"], "pi": c["pi"], "name": self.named[c["di"]][0],
-                                 "present": c["present"], "res": r, "ast": ast, "problem": prob,
+                                 "present": c["present"], "res": r, "ast": ast, "problem": prob, "sub": c["sub"],
                                  "uuid_seed": c["uuid_seed"]})
         return self
+
+    def _subsets(self, di, k, n):
+        """proper non-empty subsets of the job set (indices): all of them for small sets, seeded samples otherwise"""
+        if not self.subsets or n < 2:
+            return []
+        import itertools
+        if n <= self.subsets.get("all_upto", 0) and k == self.ks[0]:
+            return [c for m in range(1, n) for c in itertools.combinations(range(n), m)]
+        r = rng(self.seed, "subsets", self.named[di][0], k)
+        out = set()
+        for _ in range(self.subsets.get("sampled", 0)):
+            m = r.randrange(1, n)
+            out.add(tuple(sorted(r.sample(range(n), m))))
+        return sorted(out)
+
+    def rec_jobs(self, rec):
+        """the jobs a record was learned from"""
+        js = self.jobs[rec["k"]][rec["di"]]
+        return js if rec.get("sub") is None else [js[i] for i in rec["sub"]]
 
     def nontrivial(self):
         """distinct definitions with at least one fork or loop and at least two jobs at the largest k"""
@@ -142,7 +168,8 @@ class LearnRun:
 
     def sample(self, rec):
         return {"definition": puml.to_text(self.defs[rec["di"]]), "k": rec["k"], "presentation": rec["present"],
-                "jobs": [jobdef.job_json(j) for j in self.jobs[rec["k"]][rec["di"]][:3]],
+                "subset_of_job_set": rec.get("sub"),
+                "jobs": [jobdef.job_json(j) for j in self.rec_jobs(rec)[:3]],
                 "emitted": rec["res"].get("text"), "learned": puml.to_text(rec["ast"]) if rec["ast"] else None}
 
 
